@@ -60,7 +60,7 @@ Emit ==
     /\ (lay > 0 /\ fld = 0 /\ LayoutAt(lay).hv > 0 =>
           PrintT(<<"PLAN", ToJson([lay |-> LayoutAt(lay).id, f |-> LayoutAt(lay).hv, ops |-> SetToSeq(EraOps(LayoutAt(lay)))])>>))
     /\ (lay > 0 /\ fld = 0 /\ LayoutAt(lay).fty >= 0 =>
-          PrintT(<<"PLAN", ToJson([lay |-> LayoutAt(lay).id, f |-> 4, ops |-> SetToSeq(FrameLenOps(LayoutAt(lay)))])>>))
+          PrintT(<<"PLAN", ToJson([lay |-> LayoutAt(lay).id, f |-> 4, ops |-> SetToSeq(FrameLenOps(LayoutAt(lay)) \cup SilentOps(LayoutAt(lay)))])>>))
     /\ (lay > 0 /\ fld = 0 =>
           PrintT(<<"PLAN", ToJson([lay |-> LayoutAt(lay).id, f |-> 1,
                                    ops |-> IF LayoutAt(lay).len <= TruncEveryMax THEN <<[op |-> "trunc_every"]>> ELSE <<>>])>>))
